@@ -184,9 +184,10 @@ theorem src_similarity_h {n d : ℕ} (ext : Ext) (S T₀ : Mat n d) (r m : Bool)
       ⟨S, Ts.getLast?.getD T₀, simFitExt ext r m S (Ts.getLast?.getD T₀), r, m⟩ := by
   rw [similarity_retargets, genSimilarityInit_eq]
 
-/-- **the similarity alignment reproduces the target's centroid** (any options, any history) -/
+/-- **the similarity alignment reproduces the target's centroid** (any options, any history; a source of positive size:
+for a zero-size source the code divides by zero and has no finite answer) -/
 theorem src_similarity_reproduces_centroid {n d : ℕ} (hn : n ≠ 0) (ext : Ext) (S T₀ : Mat n d) (r m : Bool)
-    (Ts : List (Mat n d)) :
+    (Ts : List (Mat n d)) (hS0 : normExt ext S ≠ 0) :
     let a := retargets HObj.ops (genSimilaritySync ext) (genSimilarityInit ext blankH S T₀ r m) Ts
     centroid (genAlignedSource HObj.ops a) = centroid a.target := by
   intro a
